@@ -272,6 +272,133 @@ Theorem C08_Ipv6_spec : forall h, wf_ip6 h = true ->
                      (i6_next_header h) (i6_hop_limit h) (i6_source h) (i6_destination h).
 Proof. exact IPV6.C08_Ipv6_spec. Qed.
 Print Assumptions C08_Ipv6_spec.
+
+Import Roundtrip.Eth Roundtrip.EthProofs.
+Theorem C08_Eth_ser_agree : forall h out slice, wf_eth h = true ->
+  eth_write out h = out ++ eth_to_bytes h /\ len (eth_to_bytes h) = eth_header_len h
+  /\ (14 <= len slice -> eth_write_to_slice slice h = Ok (eth_to_bytes h ++ drop 14 slice, drop 14 slice))
+  /\ (len slice < 14 -> eth_write_to_slice slice h = Err ELen).
+Proof. exact ETH.C08_Eth_ser_agree. Qed.
+Print Assumptions C08_Eth_ser_agree.
+Theorem C08_Eth_dec_enc : forall h rest, wf_eth h = true ->
+  eth_from_slice (eth_to_bytes h ++ rest) = Ok (h, rest) /\ eth_read (eth_to_bytes h ++ rest) = Ok (h, rest)
+  /\ eth_from_bytes (eth_to_bytes h) = Ok h.
+Proof. exact ETH.C08_Eth_dec_enc. Qed.
+Print Assumptions C08_Eth_dec_enc.
+Theorem C08_Eth_enc_dec : forall bs h rest, bytes_ok bs -> eth_from_slice bs = Ok (h, rest) ->
+  wf_eth h = true /\ bs = eth_to_bytes h ++ rest /\ len (eth_to_bytes h) = 14
+  /\ eth_from_slice (eth_to_bytes h) = Ok (h, []).
+Proof. exact ETH.C08_Eth_enc_dec. Qed.
+Print Assumptions C08_Eth_enc_dec.
+Theorem C08_Eth_spec : forall h,
+  eth_to_bytes h = SpecLinkNet.eth_layout (eth_destination h) (eth_source h) (eth_ether_type h).
+Proof. exact ETH.C08_Eth_spec. Qed.
+Print Assumptions C08_Eth_spec.
+
+Import Roundtrip.Vlan Roundtrip.VlanProofs.
+Theorem C08_Vlan_ser_agree : forall h out,
+  vl_write out h = out ++ vl_to_bytes h /\ len (vl_to_bytes h) = vl_header_len h.
+Proof. exact VLAN.C08_Vlan_ser_agree. Qed.
+Print Assumptions C08_Vlan_ser_agree.
+Theorem C08_Vlan_dec_enc : forall h rest, wf_vl h = true ->
+  vl_from_slice (vl_to_bytes h ++ rest) = Ok (h, rest) /\ vl_read (vl_to_bytes h ++ rest) = Ok (h, rest)
+  /\ vl_from_bytes (vl_to_bytes h) = Ok h.
+Proof. exact VLAN.C08_Vlan_dec_enc. Qed.
+Print Assumptions C08_Vlan_dec_enc.
+Theorem C08_Vlan_enc_dec : forall bs h rest, bytes_ok bs -> vl_from_slice bs = Ok (h, rest) ->
+  wf_vl h = true /\ bs = vl_to_bytes h ++ rest /\ len (vl_to_bytes h) = 4
+  /\ vl_from_slice (vl_to_bytes h) = Ok (h, []).
+Proof. exact VLAN.C08_Vlan_enc_dec. Qed.
+Print Assumptions C08_Vlan_enc_dec.
+Theorem C08_Vlan_spec : forall h, wf_vl h = true ->
+  vl_to_bytes h = SpecLinkNet.vlan_layout (vl_pcp h) (vl_drop_eligible_indicator h) (vl_vlan_id h) (vl_ether_type h).
+Proof. exact VLAN.C08_Vlan_spec. Qed.
+Print Assumptions C08_Vlan_spec.
+
+Import Roundtrip.Sll Roundtrip.SllProofs.
+Theorem C08_Sll_ser_agree : forall h out slice, wf_sll h = true ->
+  sll_write out h = out ++ sll_to_bytes h /\ len (sll_to_bytes h) = sll_header_len h
+  /\ (16 <= len slice -> sll_write_to_slice slice h = Ok (sll_to_bytes h ++ drop 16 slice, drop 16 slice))
+  /\ (len slice < 16 -> sll_write_to_slice slice h = Err ELen).
+Proof. exact SLL.C08_Sll_ser_agree. Qed.
+Print Assumptions C08_Sll_ser_agree.
+Theorem C08_Sll_dec_enc : forall h rest, wf_sll h = true ->
+  sll_from_slice (sll_to_bytes h ++ rest) = Ok (h, rest) /\ sll_read (sll_to_bytes h ++ rest) = Ok (h, rest)
+  /\ sll_from_bytes (sll_to_bytes h) = Ok h.
+Proof. exact SLL.C08_Sll_dec_enc. Qed.
+Print Assumptions C08_Sll_dec_enc.
+Theorem C08_Sll_enc_dec : forall bs h rest, bytes_ok bs -> sll_from_slice bs = Ok (h, rest) ->
+  wf_sll h = true /\ bs = sll_to_bytes h ++ rest /\ len (sll_to_bytes h) = 16
+  /\ sll_from_slice (sll_to_bytes h) = Ok (h, []).
+Proof. exact SLL.C08_Sll_enc_dec. Qed.
+Print Assumptions C08_Sll_enc_dec.
+Theorem C08_Sll_inconsistent_not_roundtrip : forall h rest, sll_in_range h = true -> sll_consistent h = false ->
+  forall h' rest', sll_from_slice (sll_to_bytes h ++ rest) = Ok (h', rest') -> h' <> h.
+Proof. exact SLL.C08_Sll_inconsistent_not_roundtrip. Qed.
+Print Assumptions C08_Sll_inconsistent_not_roundtrip.
+Theorem C08_Sll_spec : forall h, sll_to_bytes h =
+  SpecLinkNet.sll_layout (sll_packet_type h) (sll_arp_hrd_type h) (sll_sender_address_valid_length h)
+             (sll_sender_address h) (sll_protocol_u16 (sll_protocol_type h)).
+Proof. exact SLL.C08_Sll_spec. Qed.
+Print Assumptions C08_Sll_spec.
+
+Import Roundtrip.Arp Roundtrip.ArpProofs.
+Theorem C08_Arp_ser_agree : forall h out, wf_arp h = true ->
+  exists e, arp_to_bytes h = Some e /\ arp_write out h = Some (out ++ e) /\ len e = arp_packet_len h.
+Proof. exact ARP.C08_Arp_ser_agree. Qed.
+Print Assumptions C08_Arp_ser_agree.
+Theorem C08_Arp_dec_enc : forall h rest, wf_arp h = true ->
+  exists e, arp_to_bytes h = Some e /\ len e = arp_packet_len h
+    /\ arp_from_slice (e ++ rest) = Ok (arp_norm h) /\ drop (arp_packet_len h) (e ++ rest) = rest
+    /\ arp_read (e ++ rest) = Ok (arp_norm h, rest) /\ arp_eqb (arp_norm h) h = true.
+Proof. exact ARP.C08_Arp_dec_enc. Qed.
+Print Assumptions C08_Arp_dec_enc.
+Theorem C08_Arp_enc_dec : forall bs h, bytes_ok bs -> arp_from_slice bs = Ok h ->
+  wf_arp h = true /\ arp_norm h = h /\ arp_packet_len h <= len bs
+  /\ exists e, arp_to_bytes h = Some e /\ e = take (arp_packet_len h) bs
+       /\ arp_from_slice (e ++ drop (arp_packet_len h) bs) = Ok h.
+Proof. exact ARP.C08_Arp_enc_dec. Qed.
+Print Assumptions C08_Arp_enc_dec.
+Theorem C08_Arp_spec : forall h, wf_arp h = true ->
+  arp_to_bytes h = Some (SpecLinkNet.arp_layout (arp_hw_addr_type h) (arp_proto_addr_type h) (arp_operation h)
+                                    (arp_sh h) (arp_sp h) (arp_th h) (arp_tp h)).
+Proof. exact ARP.C08_Arp_spec. Qed.
+Print Assumptions C08_Arp_spec.
+Theorem C08_ArpEthIpv4_ser_agree : forall v, wf_ae v = true ->
+  exists p, ae_to_arp_packet v = Some p /\ wf_arp p = true /\ arp_to_bytes p = Some (ae_to_bytes v)
+            /\ len (ae_to_bytes v) = 28 /\ arp_try_eth_ipv4 p = Ok v.
+Proof. exact ARP.C08_ArpEthIpv4_ser_agree. Qed.
+Print Assumptions C08_ArpEthIpv4_ser_agree.
+Theorem C08_ArpEthIpv4_dec_enc : forall v rest, wf_ae v = true ->
+  exists p, arp_from_slice (ae_to_bytes v ++ rest) = Ok p /\ arp_try_eth_ipv4 p = Ok v
+            /\ drop 28 (ae_to_bytes v ++ rest) = rest.
+Proof. exact ARP.C08_ArpEthIpv4_dec_enc. Qed.
+Print Assumptions C08_ArpEthIpv4_dec_enc.
+Theorem C08_ArpEthIpv4_enc_dec : forall bs p v, bytes_ok bs -> arp_from_slice bs = Ok p ->
+  arp_try_eth_ipv4 p = Ok v -> wf_ae v = true /\ 28 <= len bs /\ ae_to_bytes v = take 28 bs.
+Proof. exact ARP.C08_ArpEthIpv4_enc_dec. Qed.
+Print Assumptions C08_ArpEthIpv4_enc_dec.
+
+Import Roundtrip.Exts4 Roundtrip.Exts4Proofs.
+Theorem C08_Exts4_ser_agree : forall e out start, wf_x4 e = true -> x4_linked start e = true ->
+  exists b, x4_write out e start = Ok (out ++ b) /\ len b = x4_header_len e
+            /\ match x4_auth e with Some h => ah_to_bytes h = Some b | None => b = [] end.
+Proof. exact EXTS4.C08_Exts4_ser_agree. Qed.
+Print Assumptions C08_Exts4_ser_agree.
+Theorem C08_Exts4_dec_enc : forall e start rest, wf_x4 e = true -> x4_linked start e = true ->
+  exists b, x4_write [] e start = Ok b
+    /\ x4_from_slice start (b ++ rest) = Ok (x4_norm e, x4_final start e, rest)
+    /\ x4_read (b ++ rest) start = Ok (x4_norm e, x4_final start e, rest)
+    /\ x4_eqb (x4_norm e) e = true.
+Proof. exact EXTS4.C08_Exts4_dec_enc. Qed.
+Print Assumptions C08_Exts4_dec_enc.
+Theorem C08_Exts4_enc_dec : forall start bs e n rest, bytes_ok bs -> x4_from_slice start bs = Ok (e, n, rest) ->
+  wf_x4 e = true /\ x4_norm e = e /\ x4_linked start e = true /\ n = x4_final start e
+  /\ exists b, x4_write [] e start = Ok b /\ bs = take (x4_header_len e) bs ++ rest
+       /\ agree (x4_keep_mask e) b (take (x4_header_len e) bs)
+       /\ x4_from_slice start (b ++ rest) = Ok (e, n, rest).
+Proof. exact EXTS4.C08_Exts4_enc_dec. Qed.
+Print Assumptions C08_Exts4_enc_dec.
 (*c08a-more*)
 End LINKNET.
 (* ---- end extend-c08a ---- *)
